@@ -19,7 +19,7 @@ class Obs(dict):
 
 
 class AoefProp(Prop):
-    IMPORTS = ["Aoef.Model", "Aoef.Schema"]
+    IMPORTS = ["Aoef.Model", "Aoef.Schema", "Aoef.Typing"]
     PRELUDE = "Open Scope Z_scope.\n"
     CHUNK = 12
     CYCLES = 1
@@ -140,7 +140,9 @@ class AoefProp(Prop):
         return A.doc_lit(o.x["tables"], o.x["rootflat"])
 
     def save_agrees(self, case, o, eq="doc_eqb"):
-        return (f"{eq} ncls_tables inline_classes (save_root current {self.root_name(case)} {A.node_lit(o.x['node'])}) "
+        # the theorem's hypotheses hold on this very object (non-vacuity, evaluated on every case) and the documents agree
+        nl = A.node_lit(o.x['node'])
+        return (f"wfb current {self.root_name(case)} {nl} && {eq} ncls_tables inline_classes (save_root current {self.root_name(case)} {A.node_lit(o.x['node'])}) "
                 f"{self.doc_expr(o)}")
 
     def show(self, case):
